@@ -99,3 +99,13 @@ MUTANTS['C10'] = [
   ('eager-cache-returns-self', [(C, "            return new(self)\n", "            return self if self.indexable else new(self)\n")]),
   ('iter-recomputes-instead-of-cache', [(C, "        else:\n            for i in range(len(self)):\n                yield self[i]\n\n    def __len__(self):\n        return len(self.input_dataset)\n\n    def copy(self, freeze: bool = False) -> 'Dataset':\n        if not freeze:\n            import warnings\n            warnings.warn(\n                'Copying a CacheDataset preserves the cache, i.e., the '\n                'already cached part of the dataset will be frozen even if '\n                'freeze=False!'\n            )\n        # We have to share the cache here because otherwise a new cache would\n        # be initialized at every copy and copy is called by prefetch before\n        # iterating over the dataset\n        copy = self.__class__.__new__(self.__class__)\n        copy.input_dataset = self.input_dataset.copy(freeze)\n        copy._cache = self._cache\n        copy._keep_mem_free", "        else:\n            for i in range(len(self)):\n                yield self[i] if i in self._cache or i % 2 else self.input_dataset[i]\n\n    def __len__(self):\n        return len(self.input_dataset)\n\n    def copy(self, freeze: bool = False) -> 'Dataset':\n        if not freeze:\n            import warnings\n            warnings.warn(\n                'Copying a CacheDataset preserves the cache, i.e., the '\n                'already cached part of the dataset will be frozen even if '\n                'freeze=False!'\n            )\n        # We have to share the cache here because otherwise a new cache would\n        # be initialized at every copy and copy is called by prefetch before\n        # iterating over the dataset\n        copy = self.__class__.__new__(self.__class__)\n        copy.input_dataset = self.input_dataset.copy(freeze)\n        copy._cache = self._cache\n        copy._keep_mem_free")]),
 ]
+
+MUTANTS['C11'] = [
+  ('reuse-check-dropped', [(C, "            if reuse:\n                LOG.info(f'Cache dir \"{cache_dir}\" already exists. Re-using stored data.')\n            else:", "            if True:\n                LOG.info(f'Cache dir \"{cache_dir}\" already exists. Re-using stored data.')\n            else:")]),
+  ('del-clears-regardless', [(C, "            self.cache.close()\n            if self.clear:", "            self.cache.close()\n            if True:")]),
+  ('del-never-clears', [(C, "            self.cache.close()\n            if self.clear:", "            self.cache.close()\n            if self.clear and not self.reuse:")]),
+  ('diskcopy-second-wrapper', [(C, "        copy.input_dataset = self.input_dataset.copy(freeze)\n        copy._cache = self._cache\n        return copy", "        copy.input_dataset = self.input_dataset.copy(freeze)\n        copy._cache = _DiskCacheWrapper(self._cache.cache.directory, True, self._cache.clear)\n        return copy")]),
+  ('numpy-index-own-entry', [(C, "            item = int(item)\n", "            pass\n")]),
+  ('key-path-stored-as-str', [(C, "        if isinstance(item, str):\n            item = self.keys().index(item)\n\n        if isinstance(item, numbers.Integral):\n            # numpy", "        if isinstance(item, str):\n            k = 'key:' + item\n            if k in self._cache:\n                return self._cache[k]\n            value = self.input_dataset[item]\n            self._cache[k] = value\n            return value\n\n        if isinstance(item, numbers.Integral):\n            # numpy")]),
+  ('reuse-wipes-directory', [(C, "        self.cache = diskcache.Cache(cache_dir, eviction_policy='none')", "        self.cache = diskcache.Cache(cache_dir, eviction_policy='none')\n        if reuse and clear:\n            self.cache.clear()")]),
+]
